@@ -497,6 +497,27 @@ func genSplit(g *Gen, n int) {
 			cvas = append(cvas, a)
 			g.count("pattern/delegated-exceeds-vesting")
 		}
+		if sc%3 == 1 {
+			// directed shape: a DELAYED vesting account (another SDK vesting type) as sender of split /
+			// move: rejected, and the account record stays what it is
+			dv := vaddr(fresh)
+			fresh++
+			g.emit("v.acct %s dva [uc4e=%d] %d", dv, 1000+g.intn(1000), nowS+g.pickI(1000, 100000))
+			g.emit("v.fund %s [uc4e=3000]", dv)
+			g.emit("v.q.locked %s", dv)
+			to := vaddr(fresh)
+			fresh++
+			switch g.intn(3) {
+			case 0:
+				g.emit("v.split %s %s [uc4e=%d]", atok(dv), atok(to), 1+g.intn(500))
+			case 1:
+				g.emit("v.move %s %s", atok(dv), atok(to))
+			default:
+				g.emit("v.moveDenoms %s %s uc4e", atok(dv), atok(to))
+			}
+			g.emit("v.q.locked %s", dv)
+			g.count("shape/delayed-vesting-sender")
+		}
 		if sc%3 == 0 {
 			// directed shape: a recorded account that has delegated its WHOLE balance (bank balance 0,
 			// everything still vesting) must still be counted by both summaries
